@@ -178,7 +178,7 @@ def ev_va(case, rec):
 WAVE = [0.4, 0.5, 0.658, 0.85, 1.0, 1.6]
 TEMP = [-20.0, 0.0, 15.0, 45.0]
 PRES = [650.0, 1013.25, 1100.0]
-HUM = [0.0, 50.0, 100.0]
+HUM = [0.0, 0.2, 0.5, 0.99, 1.0, 1.01, 5.0, 50.0, 99.5, 100.0]      # incl. very dry air: a percentage below 1 is a percentage
 CO2 = [300.0, 420.0, 600.0, 416.45, 300.5]      # whole and fractional ppm values (measured CO2 contents are not whole numbers)
 DIST = [1.0, 1e3, 5e4]
 NREF = 1.000281781
